@@ -64,9 +64,20 @@ func Check_Operations() {
 	if op == 1 && sx.Choose("deadlinesPassed", 2) == 1 {
 		a.VerifShiftDeadlines(-(agg.InactiveTimeout + agg.Tick))
 	}
+	// callbacks do what the API documents for them: besides reading the record
+	// they may reset its statistics and mark its correlated / external fields
+	modifies := false
+	if op == 1 || op == 2 {
+		modifies = sx.Choose("callbackModifiesRecord", 2) == 1
+	}
 	cb := func(k intermediate.FlowKey, r *intermediate.AggregationFlowRecord) error {
 		if fail {
 			return errCb
+		}
+		if modifies {
+			a.ResetStatAndThroughputElementsInRecord(r.Record)
+			a.SetCorrelatedFieldsFilled(r, true)
+			a.SetExternalFieldsFilled(r, true)
 		}
 		return nil
 	}
@@ -112,6 +123,7 @@ type outcome struct {
 	srcTotal uint64
 	dstTotal uint64
 	exported int
+	q1, q2   int64 // what a query operation returned
 }
 
 func observe(a *intermediate.AggregationProcess, k agg.Key, exported int) outcome {
@@ -130,7 +142,7 @@ func observe(a *intermediate.AggregationProcess, k agg.Key, exported int) outcom
 }
 
 func sameOutcome(x, y outcome) bool {
-	return sx.And(x.flows == y.flows, x.heapLen == y.heapLen, x.ready == y.ready, x.filled == y.filled, x.exported == y.exported,
+	return sx.And(x.flows == y.flows, x.heapLen == y.heapLen, x.ready == y.ready, x.filled == y.filled, x.exported == y.exported, x.q1 == y.q1, x.q2 == y.q2,
 		x.srcDelta == y.srcDelta, x.dstDelta == y.dstDelta, x.srcTotal == y.srcTotal, x.dstTotal == y.dstTotal)
 }
 
@@ -139,7 +151,7 @@ func sameOutcome(x, y outcome) bool {
 // state and the exports must equal those of one of the two sequential orders.
 func Check_Linearizable() {
 	k := agg.Keys[0]
-	scenario := sx.Choose("scenario", 3)
+	scenario := sx.Choose("scenario", 5)
 	mk := func(who int, tag string) agg.Rec {
 		r := agg.Rec{Key: k, TCPState: "ESTABLISHED", EndReason: registry.ActiveTimeoutReason, FlowType: registry.FlowTypeInterNode, Start: 1}
 		if who == 1 {
@@ -168,11 +180,17 @@ func Check_Linearizable() {
 		}
 		op1 := func() { a.AggregateMsgByFlowKey(agg.Message(r1)) }
 		op2 := func() { a.AggregateMsgByFlowKey(agg.Message(r2)) }
+		var q1, q2 int64
 		switch scenario {
 		case 1:
-			op2 = func() { a.GetNumFlows(); a.GetRecords(nil) }
+			op2 = func() { q1 = a.GetNumFlows() }
 		case 2:
 			op2 = func() { a.ForAllExpiredFlowRecordsDo(cb) }
+		case 3:
+			// the advertised next expiry, in units of 2^30 ns on the standing clock
+			op2 = func() { q1 = int64(a.GetExpiryFromExpirePriorityQueue() >> 30) }
+		case 4:
+			op2 = func() { q2 = int64(len(a.GetRecords(nil))) }
 		}
 		switch order {
 		case 0:
@@ -188,7 +206,9 @@ func Check_Linearizable() {
 			go func() { defer wg.Done(); op2() }()
 			wg.Wait()
 		}
-		return observe(a, k, exported)
+		o := observe(a, k, exported)
+		o.q1, o.q2 = q1, q2
+		return o
 	}
 	s12, s21 := run(0), run(1)
 	c := run(2)
